@@ -56,7 +56,7 @@ def judge_listing(ctx, ws, text, origin):
 
 def run_shard(ctx):
     ws = real.Workspace()
-    batches = ctx.share(32, 800)
+    batches = ctx.share(64, 4000)
     for b in range(batches):
         bits = ctx.rng.choice([64, 64, 32])
         lines = [asmgen.template(ctx.rng, bits) for _ in range(150)]
